@@ -371,6 +371,33 @@ func (W *vWorld) cacheScenario(k int) {
 	case 6:
 		vclockbound(3599_000_000_000)
 		W.w.Shrink()
+	case 8: // a two-relation table loses one target, is freed, and is recycled with the SAME surviving other target
+		surv := firstAlive(0)
+		dying := firstAlive(1)
+		for j := 0; j < W.n; j++ {
+			if W.e[j].alive && W.e[j].h == dying {
+				W.removeEntity(j)
+				break
+			}
+		}
+		if W.n+2 < vNE {
+			i := W.create([]int{cA}, Entity{}, Entity{})
+			W.havocValues(i)
+			c := W.create([]int{cA, cR1, cR2}, W.e[i].h, surv)
+			W.havocValues(c)
+			c2 := W.create([]int{cR1, cR2}, W.e[i].h, surv)
+			W.havocValues(c2)
+		}
+	case 9: // an idle relation archetype (only a free table): recycle it, grow it, empty it, free it again
+		if W.n+2 < vNE {
+			i := W.create([]int{cA}, Entity{}, Entity{})
+			c1 := W.create([]int{cR1, cB}, W.e[i].h, Entity{})
+			c2 := W.create([]int{cR1, cB}, W.e[i].h, Entity{})
+			W.havocValues(i)
+			W.removeEntity(c1)
+			W.removeEntity(c2)
+			W.removeEntity(i)
+		}
 	case 7: // target dies, then its freed table is recycled for another target
 		for j := 0; j < W.n; j++ {
 			if W.e[j].alive && W.e[j].h == firstAlive(1) {
